@@ -82,6 +82,10 @@ func main() {
 			os.Exit(2)
 		}
 		activeProg = p
+		if *dump == "transparent" {
+			debugTransparent(p)
+			return
+		}
 		if strings.HasPrefix(*dump, "closure:") {
 			debugClosure(p, newRun(p, "dbg", "quick"), strings.Split(strings.TrimPrefix(*dump, "closure:"), ","))
 			return
